@@ -23,7 +23,7 @@ KNOWN_LEVELS = "C02-integer-levels"
 def method_specs(shape):
     specs = []
     for md in shape["methods"]:
-        pos = [(nm, ("K", t) if t != shape["n"] else ("obj",), False) for nm, t in zip("xy", md["pos"])]
+        pos = [(nm, ("K", t) if t != shape["n"] else ("obj",), False) for nm, t in zip("xyz", md["pos"])]
         kw = []
         if md.get("kw") is not None:
             t, req = md["kw"]
@@ -191,6 +191,11 @@ def gen_shapes(tier, seed):
         for _ in range(1500):
             mt = [rng.choice(pool) for _ in range(4)]
             shapes.append(dict(n=n2, methods=[dict(pos=list(t)) for t in mt], call=dict(args=rng.choice(([0, 1], [0, 0])))))
+        # three positions, three methods (sample)
+        pool3 = list(itertools.product(range(n2 + 1), repeat=3))
+        for _ in range(1500):
+            mt = [rng.choice(pool3) for _ in range(3)]
+            shapes.append(dict(n=n2, methods=[dict(pos=list(t)) for t in mt], call=dict(args=rng.choice(([0, 1, 2], [0, 0, 1], [0, 1, 0])))))
         # five classes, one position, four methods (sample)
         for _ in range(400):
             shapes.append(dict(n=5, methods=[dict(pos=[rng.randrange(6)]) for _ in range(4)], call=dict(args=[0])))
@@ -243,7 +248,7 @@ def main(tier, seed):
         PID, tier, seed, t0, results,
         bounds=dict(classes="n=4 (1 position), n=3 (2 positions)" + ("; n=5 sample" if tier != "quick" else ""),
                     methods="<=3 (+1 companion)" if tier == "quick" else "<=4",
-                    positions="1-2 + one keyword-only typed parameter",
+                    positions="1-2 (3 sampled in thorough) + one keyword-only typed parameter",
                     priorities="unbounded integers (symbolic)",
                     hierarchy="every partial order on the n classes, object on top (symbolic)"),
         rule="one state = one path class (set of hierarchies x priority assignments the real code cannot "
